@@ -58,5 +58,14 @@ def run(rep, tier):
     rep.floor('error functions examined', stats['error_functions'], 100)
     from .. import farthest
     farthest.choice_farthest(rep, tier)
+    # a failing negative lookahead reports where it stood, not the end of the forbidden text it found (its
+    # failure is what the user sees when it lies on a mandatory path): position of the failure exits of
+    # Expect / ExpectNot / Where / Backtrack
+    from .. import e1run
+    rep.rule('S-flow', 'Expect / ExpectNot / Where / Backtrack: the failure exit leaves the position where the expression '
+                       'started (the error is reported there, never beyond the first character that cannot match)')
+    te = e1run.run(rep, ['Expect', 'ExpectNot', 'Where', 'Backtrack'], tier,
+                   select=lambda f: f['rule'] in ('S-flow', 'G1-no-trace'))
+    rep.floor('configurations of ExpectNot', te.get('ExpectNot', 0), 4)
     from .. import controls
     controls.affine_controls(rep)
